@@ -317,6 +317,60 @@ theorem dump_total (v : JV) (startByte : Int) : (dump (optionsFromValue v) start
   have hb2 : (decide (o.sizebase < 2) || decide (o.sizebase > 36)) = false := by simp; omega
   simp [hw, goMod, goDiv, formatBase, hz1, hz2, hb1, hb2, Outcome.bind, noFault, isPanic, isResource]
 
+/-! ### every consumer of the options sees the clamped ones — also the bits format closure -/
+
+/-- the closure OptionsFromValue returns was made from the CLAMPED options: its sizebase is the
+    clamped one, in 2..36 -/
+theorem bits_format_sees_clamped (format : String) (v : JV) (x : Options)
+    (h : optionsFromValueFmt format v = .ok x) :
+    x.o = optionsFromValue v ∧ x.fn.sizebase = (optionsFromValue v).sizebase ∧
+    2 ≤ x.fn.sizebase ∧ x.fn.sizebase ≤ 36 := by
+  unfold optionsFromValueFmt bitsFormatFnFromOptions at h
+  simp only at h
+  split at h
+  · simp only [Outcome.bind] at h
+    injection h with h; subst h
+    have hc := options_clamped v
+    simp only at hc
+    exact ⟨rfl, rfl, hc.2.2.2.2.2.2.2.2.1, hc.2.2.2.2.2.2.2.2.2⟩
+  · simp [Outcome.bind] at h
+
+theorem formatUint_total (n : Nat) (base : Int) (h1 : 2 ≤ base) (h2 : base ≤ 36) :
+    (formatUint n base).noFault = true := by
+  unfold formatUint
+  have : ¬ ((decide (base < 2) || decide (base > 36)) = true) := by simp; omega
+  simp only [this, if_false]
+  rfl
+
+/-- the bits format renderer (tovalue / tojson / display of a binary or raw decode value) is
+    fault-free for EVERY option object, every format and every length -/
+theorem bits_format_render_total (format : String) (v : JV) (x : Options) (bits : Nat)
+    (h : optionsFromValueFmt format v = .ok x) : (x.fn.render bits).noFault = true := by
+  obtain ⟨_, _, h1, h2⟩ := bits_format_sees_clamped format v x h
+  unfold BitsFormatFn.render stringByteBits
+  split
+  · apply bind_noFault _ _ (formatUint_total _ _ h1 h2)
+    intro b _
+    split
+    · apply bind_noFault _ _ (formatUint_total _ _ h1 h2)
+      intro r _; rfl
+    · rfl
+  · rfl
+
+/-- OptionsFromValue itself: an error (unknown bits_format) or options; never a fault -/
+theorem options_from_value_total (format : String) (v : JV) : (optionsFromValueFmt format v).noFault = true := by
+  unfold optionsFromValueFmt bitsFormatFnFromOptions
+  simp only
+  split <;> rfl
+
+/-- seeded change S-C13-2 (closure made before the clamps): the renderer keeps the raw sizebase —
+    `"abc" | tobytes | tovalue({bits_format:"snippet", sizebase:-1})` panics in FormatUint -/
+theorem bits_format_swapped_order_panics :
+    (optionsFromValueFmtSwapped "snippet" (.obj [("sizebase", .int (-1))])).bind (fun x => x.fn.render 24)
+      = .panic "strconv: illegal AppendInt/FormatInt base" ∧
+    (optionsFromValueFmt "snippet" (.obj [("sizebase", .int (-1))])).bind (fun x => x.fn.render 24) = .ok "0b11" := by
+  decide
+
 /-- FOUND BY THIS CHECK (finding line-bytes-unbounded, replayed on the real binary, since fixed):
     with only `max(1, LineBytes)`, `d({line_bytes: 2305843009213693952, display_bytes: 1})` was not
     rejected and not honoured — the header loop never finishes and exhausts memory -/
@@ -610,6 +664,12 @@ example : (8 : Nat) ≤ 8388608 ∧ toJSON (-1) 8 = .err "indent-range" ∧ toJS
         = ⟨0, 0, 0, 1, 0, 2, 2⟩
     ∧ (optionsFromValue (.obj [("line_bytes", .int 2305843009213693952)])).lineBytes = 4096 := by
   decide
+
+/-- bits_format_sees_clamped: the hypothesis holds for every known format; the rendered size -/
+example : (optionsFromValueFmt "snippet" (.obj [("sizebase", .int 37), ("line_bytes", .int 0)])).bind
+    (fun x => x.fn.render 8000) = .ok "rs" ∧
+    (optionsFromValueFmt "snippet" (.obj [("sizebase", .int 16)])).bind (fun x => x.fn.render 8004) = .ok "0x3e8.4" ∧
+    optionsFromValueFmt "nonsense" .null = .err "invalid bits format" := by decide
 
 /-- to_radix / from_radix / intdiv on boundary bases -/
 example : toRadix 20 255 16 = .ok (some "ff") := by decide
